@@ -2430,7 +2430,13 @@ fn main() {
                     }
                 }
                 let mut c2 = c.clone();
+                let before = c2.ty.to_token_stream().to_string();
                 StaticRefs.visit_type_mut(&mut c2.ty);
+                // such a constant usually holds literals, which become `exec const`s (N4): a constant that reads them must be
+                // `exec` itself ("cannot read const with mode exec" otherwise, an error for the whole file)
+                if before.contains('&') {
+                    c2.attrs.push(parse_quote!(#[doc = "@vp-exec-const"]));
+                }
                 rest.push(Item::Const(c2));
                 continue;
             }
@@ -2534,6 +2540,24 @@ fn main() {
         let raw = file.to_token_stream().to_string();
         let pretty = rustfmt(&raw);
         let mut text = postprocess(pretty, &index);
+        if text.contains("@vp-exec-const") {
+            let mut out = String::new();
+            let mut pending = false;
+            for line in text.lines() {
+                if line.trim() == "#[doc = \"@vp-exec-const\"]" {
+                    pending = true;
+                    continue;
+                }
+                if pending && line.contains("const ") {
+                    out.push_str(&line.replacen("const ", "exec const ", 1));
+                    pending = false;
+                } else {
+                    out.push_str(line);
+                }
+                out.push('\n');
+            }
+            text = out;
+        }
         // generated consts (N3)
         let mut consts_txt = String::new();
         for (name, bytes, is_pub, is_str) in &const_items {
